@@ -706,6 +706,10 @@ def lexer_mode_rule(F, rep):
         if taken and not branches:
             rep.ok(rid, key, "tested and cleared in one step by mem::take / mem::replace(.., false) (line %s)" % taken[0][0])
             continue
+        if not branches and any(f in assigns(h2["body"], False) for h2 in meths.values()):
+            # the flag is read in some other form (`self.flag.then(|| ..)`, handed to a helper) and is cleared somewhere: which paths depend on it cannot be named
+            rep.undecided(rid, key, "mode flag `%s` is cleared in the lexer, but no `if` / match guard is conditioned on it directly: the paths selected by it are not followed" % f)
+            continue
         if not branches:
             rep.violation(rid, key, "mode flag `%s` is switched on by a setter but no branch of the lexer is selected by it and it is never cleared unconditionally" % f, "feel-parser/src/lexer.rs")
             continue
